@@ -165,8 +165,9 @@ Definition lname_eqb (a b : lname) : bool :=
 
 (* ---- NthChild::has_index over i32 with the wrapping operations written out ---- *)
 Definition wrap32 (z : Z) : Z := ((z + 2147483648) mod 4294967296 - 2147483648)%Z.
+(* the difference is exact (computed in i64) or wraps in i32, as the source says today (gen/Constants.v: HAS_INDEX_WIDE) *)
 Definition has_index (a b : Z) (index : Z) : bool :=
-  let offsetted := wrap32 (index - b) in
+  let offsetted := if HAS_INDEX_WIDE then (index - b)%Z else wrap32 (index - b) in
   if (a =? 0)%Z then (offsetted =? 0)%Z
   else if ((offsetted <? 0) && (0 <? a) || (0 <? offsetted) && (a <? 0))%Z then false
   else (* wrapping_rem: truncated remainder; i32::MIN rem -1 = 0 *)
